@@ -131,6 +131,15 @@ def compArgs (s : Sys) (toks : List String) : Option CompArgs :=
     match acc with
     | none => none
     | some a =>
+      if tok.startsWith "r" then
+        -- `rN>target`: an additional relation target without a component
+        match parseCompTok ("c" ++ (tok.drop 1).toString) with
+        | none => none
+        | some ct =>
+          match ct.target, s.relOf ct with
+          | some _, some (some r) => some { a with rels := a.rels ++ [r] }
+          | _, _ => none
+      else
       if !(tok.startsWith "c" || tok.startsWith "+c" || tok.startsWith "-c") then some a else
       match parseCompTok tok with
       | none => none
